@@ -246,7 +246,14 @@ pub fn probe_auth(sim: &mut Sim) {
             reqs.push((json!({"modify_contract": {"approvers": ap, "executors": [newcomer]}}), vec![]));
         }
     }
-    let accounts = sim.spec.accounts.clone();
+    let mut accounts = sim.spec.accounts.clone();
+    // look-alikes of accounts that do hold a role: same letters, other case
+    for src in [cfg.executors.first(), cfg.approvers.first(), book.asks.values().next().map(|a| &a.owner), book.bids.values().next().map(|b| &b.owner)].into_iter().flatten() {
+        let up = src.to_uppercase();
+        if !accounts.contains(&up) {
+            accounts.push(up);
+        }
+    }
     // the same requests under another spelling of the order's id: whatever such a request does,
     // it must not let somebody act on the order who could not under its real id
     {
